@@ -848,22 +848,41 @@ where
         let capacity = entries.len();
         let index = (hash as usize) & *mask;
 
-        // Linear probing to find slot
+        // Linear probing to find slot. A tombstone may be reused, but only after the rest of
+        // the probe path (up to the first empty slot) has been searched for the key itself:
+        // the key may live behind a slot that was vacated by an earlier removal.
+        let mut first_tombstone: Option<usize> = None;
         for i in 0..capacity {
             let probe_index = (index + i) & *mask;
             let entry = &mut entries[probe_index];
 
-            if entry.hash == 0 || entry.hash == u64::MAX {
-                // Empty slot or tombstone, insert here
+            if entry.hash == 0 {
+                // Empty slot: the key is not in the table
+                let slot = first_tombstone.unwrap_or(probe_index);
+                let entry = &mut entries[slot];
                 entry.key = key;
                 entry.value = value;
                 entry.hash = hash;
                 return Ok(None);
+            } else if entry.hash == u64::MAX {
+                // Tombstone: remember the first one, keep looking for the key
+                if first_tombstone.is_none() {
+                    first_tombstone = Some(probe_index);
+                }
             } else if entry.hash == hash && entry.key == key {
                 // Key exists, update value
                 let old_value = std::mem::replace(&mut entry.value, value);
                 return Ok(Some(old_value));
             }
+        }
+
+        if let Some(slot) = first_tombstone {
+            // No empty slot on the path and the key is absent: reuse the tombstone
+            let entry = &mut entries[slot];
+            entry.key = key;
+            entry.value = value;
+            entry.hash = hash;
+            return Ok(None);
         }
 
         // Table is full, need to resize
